@@ -80,8 +80,8 @@ Definition correctionF (fw fh tw th x y w h : Z) : option (Z * Z * Z * Z) :=
 
 (* the geometry rfbScaledScreenUpdateRect(screen W x H, ptr w' x h', x0,y0,w0,h0) works with, as a
    flat list [x1; y1; w1; h1; areaX; areaY] ++ sxs ++ sys ++ cxs ++ cys (see ScaleDefs.geom).
-   grid_fix = false: the code as it is (block of destination offset i at ScaleX(x1) + i*areaX, colour
-   map sample at (x1+i)*areaX); true: proposed repair notes/fix_C17_2.diff (both at ScaleX(x1+i)). *)
+   grid_fix = true: the tree since /repo commit d58ea84 (block of destination offset i, and the colour
+   map sample, at ScaleX(x1+i)); false: before it (block at ScaleX(x1) + i*areaX, sample at (x1+i)*areaX). *)
 Fixpoint seqZ (n : nat) (k : Z) : list Z := match n with O => [] | S m => k :: seqZ m (k + 1) end.
 
 Fixpoint all_some (l : list (option Z)) : option (list Z) :=
